@@ -2,6 +2,7 @@ package counts
 
 import (
 	"fmt"
+	"math/bits"
 )
 
 // Humanable is a quantity that can be made human-readable using
@@ -76,20 +77,32 @@ func (h *Humaner) FormatNumber(n uint64, unit string) (numeral string, unitStrin
 		return fmt.Sprintf("%d", n), unit
 	}
 
-	mantissa := float64(n) / float64(prefix.Multiplier)
-	var format string
+	// Round `n / prefix.Multiplier` to `decimals` decimal places using
+	// exact integer arithmetic (round half to even), so that the
+	// result is rounded only once:
+	var decimals int
+	var scale uint64
 
 	switch {
 	case wholePart >= 100:
-		// `mantissa` can actually be up to 1023.999.
-		format = "%.0f"
+		// The whole part can actually be up to 18446.
+		decimals, scale = 0, 1
 	case wholePart >= 10:
-		format = "%.1f"
+		decimals, scale = 1, 10
 	default:
-		format = "%.2f"
+		decimals, scale = 2, 100
 	}
 
-	return fmt.Sprintf(format, mantissa), prefix.Name + unit
+	hi, lo := bits.Mul64(n, scale)
+	q, r := bits.Div64(hi, lo, prefix.Multiplier)
+	if r > prefix.Multiplier-r || (r == prefix.Multiplier-r && q%2 == 1) {
+		q++
+	}
+
+	if decimals == 0 {
+		return fmt.Sprintf("%d", q), prefix.Name + unit
+	}
+	return fmt.Sprintf("%d.%0*d", q/scale, decimals, q%scale), prefix.Name + unit
 }
 
 // Format formats values, aligned, in `len(unit) + 10` or fewer
